@@ -1,20 +1,29 @@
 //! One module per property.
 pub mod common;
+pub mod c02;
 pub mod c03;
+pub mod c05;
+pub mod c10;
 
 use crate::engine::*;
 use serde_json::Value as J;
 
 pub fn run(id: &str, cfg: &Cfg) -> Option<Report> {
     Some(match id {
+        "C02" => c02::run(cfg),
         "C03" => c03::run(cfg),
+        "C05" => c05::run(cfg),
+        "C10" => c10::run(cfg),
         _ => return None,
     })
 }
 
 pub fn replay(id: &str, case: &J) -> Option<i32> {
     Some(match id {
+        "C02" => c02::replay(case),
         "C03" => c03::replay(case),
+        "C05" => c05::replay(case),
+        "C10" => c10::replay(case),
         _ => return None,
     })
 }
